@@ -1,4 +1,5 @@
 import Proofs.C07
+import Proofs.C06
 /-!
 # C07, whole-template form: the line of every render error is the line of a node of the template
 
@@ -560,3 +561,357 @@ theorem render_error_line_in_tree_pure (c : RCtx) (root : List Node) (h : noIncl
     line fails -/
 example : noInclList [.text 1 [97, 10], .obj 2 (.var [120])] = true ∧
     linesList [.text 1 [97, 10], .obj 2 (.var [120])] = [1, 2] := by decide
+
+/-! ## From the source to the tree: the lines of compiled nodes are lines of tokens -/
+
+/-- post-condition on a compile-time result -/
+def CPost {α} (Q : SErr → Prop) (R : α → Prop) : CRes α → Prop
+  | .ok a => R a
+  | .err e => Q e
+  | .panic _ => True
+  | .unmodelled _ => True
+
+theorem CPost.bind {α β} {Q : SErr → Prop} {R : α → Prop} {R' : β → Prop} {x : CRes α} {f : α → CRes β}
+    (hx : CPost Q R x) (hf : ∀ a, R a → CPost Q R' (f a)) : CPost Q R' (x >>= f) := by
+  cases x with
+  | ok a => exact hf a hx
+  | err e => exact hx
+  | panic w => exact True.intro
+  | unmodelled w => exact True.intro
+
+theorem CPost.pure {α} {Q : SErr → Prop} {R : α → Prop} (a : α) (h : R a) : CPost Q R (pure a : CRes α) := h
+
+theorem cpost_liftParse {α} (L : List Nat) (line : Nat) (keep : Bool) (r : Res ParseErr α) (hl : line ∈ L) :
+    CPost (fun e => e.line ∈ L) (fun _ => True) (liftParse line keep r) := by
+  cases r with
+  | ok a => exact True.intro
+  | err e => simp only [liftParse, CPost]; split <;> exact hl
+  | panic w => exact True.intro
+  | unmodelled w => exact True.intro
+
+mutual
+def AST.tokLines : AST → List Nat
+  | .text t => [t.line]
+  | .obj t => [t.line]
+  | .tag t => [t.line]
+  | .trim _ => []
+  | .raw _ => []
+  | .block t body clauses => t.line :: (tokLinesList body ++ tokLinesClauses clauses)
+def tokLinesList : List AST → List Nat
+  | [] => []
+  | n :: ns => n.tokLines ++ tokLinesList ns
+def tokLinesClauses : List (Token × List AST) → List Nat
+  | [] => []
+  | (t, body) :: cs => t.line :: (tokLinesList body ++ tokLinesClauses cs)
+end
+
+/-- the lines of compiled clauses: the clause tokens and their bodies -/
+def linesCClauses : List (Token × List Node) → List Nat
+  | [] => []
+  | (t, body) :: cs => t.line :: (linesList body ++ linesCClauses cs)
+
+theorem cpost_ifClauseTests (L : List Nat) :
+    ∀ cs : List (Token × List Node), (∀ x, x ∈ linesCClauses cs → x ∈ L) →
+      CPost (fun e => e.line ∈ L) (fun r => ∀ x, x ∈ linesBranches r → x ∈ L) (compileIfClauseTests cs)
+  | [], _ => by simp [compileIfClauseTests, CPost, linesBranches]
+  | (t, body) :: cs, hL => by
+    unfold compileIfClauseTests
+    refine CPost.bind (R := fun test => ∀ x, x ∈ test.lines → x ∈ L) ?_ (fun test htest =>
+      CPost.bind (cpost_ifClauseTests L cs (fun x hx => hL x (by simp [linesCClauses, hx]))) (fun rest hrest => ?_))
+    · split
+      · refine CPost.bind (cpost_liftParse L t.line true _ (hL _ (by simp [linesCClauses]))) (fun e _ => ?_)
+        exact CPost.pure _ (fun x hx => by
+          simp only [CondT.lines, List.mem_singleton] at hx; subst hx; exact hL _ (by simp [linesCClauses]))
+      · exact CPost.pure _ (fun x hx => by simp [CondT.lines] at hx)
+    · refine CPost.pure _ (fun x hx => ?_)
+      simp only [linesBranches, List.mem_append] at hx
+      rcases hx with (hx | hx) | hx
+      · exact htest x hx
+      · exact hL x (by simp [linesCClauses, hx])
+      · exact hrest x hx
+
+theorem cpost_caseClauses (L : List Nat) :
+    ∀ cs : List (Token × List Node), (∀ x, x ∈ linesCClauses cs → x ∈ L) →
+      CPost (fun e => e.line ∈ L) (fun r => ∀ x, x ∈ linesCases r → x ∈ L) (compileCaseClauses cs)
+  | [], _ => by simp [compileCaseClauses, CPost, linesCases]
+  | (t, body) :: cs, hL => by
+    unfold compileCaseClauses
+    have ht : t.line ∈ L := hL _ (by simp [linesCClauses])
+    refine CPost.bind (R := fun c => ∀ l es, c = some (l, es) → l ∈ L) ?_ (fun c hc =>
+      CPost.bind (cpost_caseClauses L cs (fun x hx => hL x (by simp [linesCClauses, hx]))) (fun rest hrest => ?_))
+    · split
+      · refine CPost.bind (cpost_liftParse L t.line true _ ht) (fun st _ => ?_)
+        split
+        · exact CPost.pure _ (fun l es h => by cases h; exact ht)
+        · exact ht
+      · exact CPost.pure _ (fun l es h => by cases h)
+    · refine CPost.pure _ (fun x hx => ?_)
+      cases c with
+      | none =>
+        simp only [linesCases, List.mem_append] at hx
+        rcases hx with hx | hx
+        · exact hL x (by simp [linesCClauses, hx])
+        · exact hrest x hx
+      | some p =>
+        obtain ⟨l, es⟩ := p
+        simp only [linesCases, List.mem_cons, List.mem_append] at hx
+        rcases hx with hx | hx | hx
+        · subst hx; exact hc _ _ rfl
+        · exact hL x (by simp [linesCClauses, hx])
+        · exact hrest x hx
+
+theorem linesList_append : ∀ a b : List Node, linesList (a ++ b) = linesList a ++ linesList b
+  | [], _ => rfl
+  | n :: ns, b => by simp [linesList, linesList_append ns b]
+
+theorem linesClauses_map_snd (L : List Nat) : ∀ cs : List (Token × List Node),
+    (∀ x, x ∈ linesCClauses cs → x ∈ L) → ∀ x, x ∈ linesClauses (cs.map (·.2)) → x ∈ L
+  | [], _, x, hx => by simp [linesClauses] at hx
+  | (t, body) :: cs, hL, x, hx => by
+    simp only [List.map_cons, linesClauses, List.mem_append] at hx
+    rcases hx with hx | hx
+    · exact hL x (by simp [linesCClauses, hx])
+    · exact linesClauses_map_snd L cs (fun y hy => hL y (by simp [linesCClauses, hy])) x hx
+
+mutual
+theorem cpost_compileNode (L : List Nat) :
+    ∀ a : AST, (∀ x, x ∈ a.tokLines → x ∈ L) →
+      CPost (fun e => e.line ∈ L) (fun ns => ∀ x, x ∈ linesList ns → x ∈ L) (compileNode a)
+  | .text t, hL => by
+    simp only [compileNode, CPost, linesList, Node.lines, List.append_nil, List.mem_singleton]
+    intro x hx; subst hx; exact hL _ (by simp [AST.tokLines])
+  | .obj t, hL => by
+    have ht : t.line ∈ L := hL _ (by simp [AST.tokLines])
+    unfold compileNode
+    split
+    · simp only [CPost, linesList, Node.lines, List.append_nil, List.mem_singleton]; intro x hx; subst hx; exact ht
+    · exact ht
+    · exact True.intro
+    · exact True.intro
+  | .trim l, _ => by simp [compileNode, CPost, linesList, Node.lines]
+  | .raw sl, _ => by simp [compileNode, CPost, linesList, Node.lines]
+  | .tag t, hL => by
+    have ht : t.line ∈ L := hL _ (by simp [AST.tokLines])
+    have one : ∀ n : Node, n.lines = [t.line] → ∀ x, x ∈ linesList [n] → x ∈ L := by
+      intro n hn x hx
+      simp only [linesList, hn, List.append_nil, List.mem_singleton] at hx; subst hx; exact ht
+    unfold compileNode
+    split
+    · refine CPost.bind (cpost_liftParse L t.line false _ ht) (fun st _ => ?_)
+      split
+      · exact CPost.pure _ (one _ rfl)
+      · exact ht
+    · split
+      · exact one _ rfl
+      · split
+        · exact one _ rfl
+        · split
+          · exact one _ rfl
+          · split
+            · refine CPost.bind (cpost_liftParse L t.line false _ ht) (fun st _ => ?_)
+              split
+              · exact CPost.pure _ (one _ rfl)
+              · exact ht
+            · exact ht
+  | .block t body clauses, hL => by
+    have ht : t.line ∈ L := hL _ (by simp [AST.tokLines])
+    unfold compileNode
+    refine CPost.bind (cpost_compileList L body (fun x hx => hL x (by simp [AST.tokLines, hx]))) (fun b hb =>
+      CPost.bind (cpost_compileClauses L clauses (fun x hx => hL x (by simp [AST.tokLines, hx]))) (fun cs hcs => ?_))
+    split
+    · refine CPost.bind (cpost_liftParse L t.line true _ ht) (fun e _ =>
+        CPost.bind (cpost_ifClauseTests L cs hcs) (fun rest hrest => CPost.pure _ (fun x hx => ?_)))
+      simp only [linesList, Node.lines, linesBranches, List.append_nil, List.mem_cons, List.mem_append] at hx
+      rcases hx with hx | (hx | hx) | hx
+      · subst hx; exact ht
+      · split at hx <;> (simp only [CondT.lines, List.mem_singleton] at hx; subst hx; exact ht)
+      · exact hb x hx
+      · exact hrest x hx
+    · split
+      · refine CPost.bind (cpost_liftParse L t.line true _ ht) (fun e _ =>
+          CPost.bind (cpost_caseClauses L cs hcs) (fun cases hcases => CPost.pure _ (fun x hx => ?_)))
+        simp only [linesList, Node.lines, List.append_nil, List.mem_cons] at hx
+        rcases hx with hx | hx
+        · subst hx; exact ht
+        · exact hcases x hx
+      · split
+        · refine CPost.bind (cpost_liftParse L t.line true _ ht) (fun st _ => ?_)
+          split
+          · refine CPost.pure _ (fun x hx => ?_)
+            simp only [linesList, Node.lines, List.append_nil, List.mem_cons, List.mem_append] at hx
+            rcases hx with hx | hx | hx
+            · subst hx; exact ht
+            · exact hb x hx
+            · exact linesClauses_map_snd L cs hcs x hx
+          · exact ht
+        · split
+          · refine CPost.pure _ (fun x hx => ?_)
+            simp only [linesList, Node.lines, List.append_nil, List.mem_cons] at hx
+            rcases hx with hx | hx
+            · subst hx; exact ht
+            · exact hb x hx
+          · exact True.intro
+theorem cpost_compileList (L : List Nat) :
+    ∀ as : List AST, (∀ x, x ∈ tokLinesList as → x ∈ L) →
+      CPost (fun e => e.line ∈ L) (fun ns => ∀ x, x ∈ linesList ns → x ∈ L) (compileList as)
+  | [], _ => by simp [compileList, CPost, linesList]
+  | a :: as, hL => by
+    unfold compileList
+    refine CPost.bind (cpost_compileNode L a (fun x hx => hL x (by simp [tokLinesList, hx]))) (fun na hna =>
+      CPost.bind (cpost_compileList L as (fun x hx => hL x (by simp [tokLinesList, hx]))) (fun nb hnb =>
+        CPost.pure _ (fun x hx => ?_)))
+    rw [linesList_append, List.mem_append] at hx
+    exact hx.elim (hna x) (hnb x)
+theorem cpost_compileClauses (L : List Nat) :
+    ∀ cs : List (Token × List AST), (∀ x, x ∈ tokLinesClauses cs → x ∈ L) →
+      CPost (fun e => e.line ∈ L) (fun r => ∀ x, x ∈ linesCClauses r → x ∈ L) (compileClauses cs)
+  | [], _ => by simp [compileClauses, CPost, linesCClauses]
+  | (t, body) :: cs, hL => by
+    unfold compileClauses
+    refine CPost.bind (cpost_compileList L body (fun x hx => hL x (by simp [tokLinesClauses, hx]))) (fun b hb =>
+      CPost.bind (cpost_compileClauses L cs (fun x hx => hL x (by simp [tokLinesClauses, hx]))) (fun rest hrest =>
+        CPost.pure _ (fun x hx => ?_)))
+    simp only [linesCClauses, List.mem_cons, List.mem_append] at hx
+    rcases hx with hx | hx | hx
+    · subst hx; exact hL _ (by simp [tokLinesClauses])
+    · exact hb x hx
+    · exact hrest x hx
+end
+
+/-! ## From the token list to the tree: the tree's tokens are tokens of the source -/
+
+mutual
+theorem tokLines_unparse : ∀ (a : AST) (x : Nat), x ∈ a.tokLines → ∃ t ∈ a.unparse, t.line = x
+  | .text t, x, hx => by simp only [AST.tokLines, List.mem_singleton] at hx; exact ⟨t, by simp [AST.unparse], hx.symm⟩
+  | .obj t, x, hx => by simp only [AST.tokLines, List.mem_singleton] at hx; exact ⟨t, by simp [AST.unparse], hx.symm⟩
+  | .tag t, x, hx => by simp only [AST.tokLines, List.mem_singleton] at hx; exact ⟨t, by simp [AST.unparse], hx.symm⟩
+  | .trim _, x, hx => by simp [AST.tokLines] at hx
+  | .raw _, x, hx => by simp [AST.tokLines] at hx
+  | .block t body cls, x, hx => by
+    simp only [AST.tokLines, List.mem_cons, List.mem_append] at hx
+    rcases hx with hx | hx | hx
+    · exact ⟨t, by simp [AST.unparse], hx.symm⟩
+    · obtain ⟨t', ht', hl⟩ := tokLinesList_unparse body x hx
+      exact ⟨t', by simp [AST.unparse, ht'], hl⟩
+    · obtain ⟨t', ht', hl⟩ := tokLinesClauses_unparse cls x hx
+      exact ⟨t', by simp [AST.unparse, ht'], hl⟩
+theorem tokLinesList_unparse : ∀ (as : List AST) (x : Nat), x ∈ tokLinesList as → ∃ t ∈ unparseList as, t.line = x
+  | [], x, hx => by simp [tokLinesList] at hx
+  | a :: as, x, hx => by
+    simp only [tokLinesList, List.mem_append] at hx
+    rcases hx with hx | hx
+    · obtain ⟨t, ht, hl⟩ := tokLines_unparse a x hx
+      exact ⟨t, by simp [unparseList, ht], hl⟩
+    · obtain ⟨t, ht, hl⟩ := tokLinesList_unparse as x hx
+      exact ⟨t, by simp [unparseList, ht], hl⟩
+theorem tokLinesClauses_unparse : ∀ (cs : List (Token × List AST)) (x : Nat), x ∈ tokLinesClauses cs →
+    ∃ t ∈ unparseClauses cs, t.line = x
+  | [], x, hx => by simp [tokLinesClauses] at hx
+  | (c, body) :: cs, x, hx => by
+    simp only [tokLinesClauses, List.mem_cons, List.mem_append] at hx
+    rcases hx with hx | hx | hx
+    · exact ⟨c, by simp [unparseClauses], hx.symm⟩
+    · obtain ⟨t, ht, hl⟩ := tokLinesList_unparse body x hx
+      exact ⟨t, by simp [unparseClauses, ht], hl⟩
+    · obtain ⟨t, ht, hl⟩ := tokLinesClauses_unparse cs x hx
+      exact ⟨t, by simp [unparseClauses, ht], hl⟩
+end
+
+/-- `x` is 0 or the line of a token of the list -/
+def TokLine (toks : List Token) (x : Nat) : Prop := x = 0 ∨ ∃ t ∈ toks, t.line = x
+
+theorem TokLine.cons {toks : List Token} {x : Nat} (t0 : Token) (h : TokLine toks x) : TokLine (t0 :: toks) x :=
+  h.elim Or.inl (fun ⟨t, ht, hl⟩ => Or.inr ⟨t, List.mem_cons_of_mem _ ht, hl⟩)
+
+theorem canonTok_line (g : Grammar) (t : Token) : (canonTok g t).line = 0 ∨ canonTok g t = t := by
+  unfold canonTok
+  split
+  · exact Or.inl rfl
+  · exact Or.inl rfl
+  · split
+    · exact Or.inl rfl
+    · exact Or.inr rfl
+  · exact Or.inr rfl
+
+/-- what the tree keeps of a token list carries only lines of that token list (or none) -/
+theorem canonM_lines (g : Grammar) : ∀ (toks : List Token) (m : CMode) (t : Token), t ∈ canonM g m toks → TokLine toks t.line := by
+  intro toks
+  induction toks with
+  | nil => intro m t ht; cases m <;> simp [canonM] at ht
+  | cons t0 ts ih =>
+    intro m t ht
+    cases m with
+    | comment =>
+      simp only [canonM] at ht
+      split at ht <;> exact (ih _ t ht).cons t0
+    | raw =>
+      simp only [canonM] at ht
+      split at ht
+      · rcases List.mem_cons.mp ht with h | h
+        · subst h; exact Or.inl rfl
+        · exact (ih _ t h).cons t0
+      · rcases List.mem_cons.mp ht with h | h
+        · subst h; exact Or.inl rfl
+        · exact (ih _ t h).cons t0
+    | normal =>
+      simp only [canonM] at ht
+      split at ht
+      · exact (ih _ t ht).cons t0
+      · split at ht
+        · rcases List.mem_cons.mp ht with h | h
+          · subst h; exact Or.inl rfl
+          · exact (ih _ t h).cons t0
+        · rcases List.mem_cons.mp ht with h | h
+          · subst h
+            rcases canonTok_line g t0 with h0 | h0
+            · exact Or.inl h0
+            · rw [h0]; exact Or.inr ⟨t0, List.mem_cons_self, rfl⟩
+          · exact (ih _ t h).cons t0
+
+/-- every line in the accepted tree is the line of a token of the input -/
+theorem tree_lines_are_token_lines (chk : Bytes → Option Cause) (toks : List Token) (ast : List AST)
+    (h : parseTokens stdGrammar chk toks = .ok ast) (x : Nat) (hx : x ∈ tokLinesList ast) : TokLine toks x := by
+  obtain ⟨t, ht, hl⟩ := tokLinesList_unparse ast x hx
+  have : unparse ast = canon stdGrammar toks := unparse_parse_std chk toks ast h
+  rw [show unparseList ast = unparse ast from rfl, this] at ht
+  exact hl ▸ canonM_lines stdGrammar toks .normal t ht
+
+/-! ## End to end -/
+
+def StatusTok (toks : List Token) : Status → Prop
+  | .done => True
+  | .brk e => TokLine toks e.line
+  | .cont e => TokLine toks e.line
+
+/-- **C07 (source to error).** Take any source, delimiter set and start line; let `toks` be its tokens
+    (whose lines are, by `C05.scan_line_at`, the start line plus the newlines before each token) and
+    suppose the block parser accepts them (`C06` says when, and locates the error otherwise). Then
+    * a compile-time error (a tag's or clause's syntax) carries the line of one of the tokens, and
+    * if compilation succeeds and the tree has no `include`, then for every value layer, configuration,
+      environment and writer behaviour every render failure — and every `break`/`continue` reaching the
+      top — is a located error carrying the line of one of the tokens (or 0). -/
+theorem source_error_line_is_token_line (delims : List Bytes) (src : Bytes) (line : Nat) (ast : List AST)
+    (hp : parseTokens stdGrammar objChk (scan delims src line) = .ok ast) :
+    CPost (fun e => TokLine (scan delims src line) e.line)
+      (fun root => noInclList root = true → ∀ (c : RCtx) (env : Env),
+        Post (fun e => ∃ se, e = .located se ∧ TokLine (scan delims src line) se.line)
+             (StatusTok (scan delims src line))
+             (renderRoot c root env))
+      (compileList ast) := by
+  have hc := cpost_compileList (tokLinesList ast) ast (fun _ h => h)
+  have tl := tree_lines_are_token_lines objChk (scan delims src line) ast hp
+  cases hcl : compileList ast with
+  | ok root =>
+    rw [hcl] at hc
+    intro hni c env
+    refine Post.mono (render_error_line_in_tree c root hni env) (fun e he => ?_) (fun st hst => ?_)
+    · cases e with
+      | plain _ => exact he.elim
+      | located se => exact ⟨se, rfl, he.elim Or.inl (fun h => tl _ (hc _ h))⟩
+    · cases st with
+      | done => exact True.intro
+      | brk e => exact hst.elim Or.inl (fun h => tl _ (hc _ h))
+      | cont e => exact hst.elim Or.inl (fun h => tl _ (hc _ h))
+  | err e => rw [hcl] at hc; exact tl _ hc
+  | panic w => exact True.intro
+  | unmodelled w => exact True.intro
